@@ -1,1 +1,3 @@
 import BddVerif.Props.C07
+#print axioms B.Props.C07.substitute_spec
+#print axioms B.Props.C07.substitute_safe_canonical
